@@ -117,6 +117,7 @@ package hotline
 //@ func (ffif *FlatFileInformationFork) Size() (size [4]byte)
 //@   requires ffif != nil && len(ffif.Name) <= 65535 && len(ffif.Comment) <= 65535
 //@   ensures u32(bytes(size)) == len(old(wire_InfoFork(ffif)))
+//@   modifies nothing
 //@   nopanic
 
 //@ func (ffif *FlatFileInformationFork) ReadNameSize() (size []byte)
@@ -140,6 +141,8 @@ package hotline
 //@   ensures bytes(ffif.CreateDate) == bytes(b)[52:60] && bytes(ffif.ModifyDate) == bytes(b)[60:68] && bytes(ffif.NameScript) == bytes(b)[68:70]
 //@   ensures bytes(ffif.Name) == bytes(b)[72:nameEnd]
 //@   ensures len(b) > nameEnd ==> bytes(ffif.Comment) == bytes(b)[nameEnd+2:nameEnd+2+u16(bytes(b),nameEnd)] && u16(bytes(ffif.CommentSize)) == len(ffif.Comment)
+//@   ensures len(b) <= nameEnd ==> same(ffif.Comment, old(ffif.Comment)) && ffif.CommentSize[0] == old(ffif.CommentSize[0]) && ffif.CommentSize[1] == old(ffif.CommentSize[1])
+//@   modifies *ffif
 //@   nopanic
 
 //@ func (ffif *FlatFileInformationFork) Write(p []byte) (n int, err error)
@@ -152,6 +155,8 @@ package hotline
 //@   ensures bytes(ffif.CreateDate) == bytes(p)[52:60] && bytes(ffif.ModifyDate) == bytes(p)[60:68] && bytes(ffif.NameScript) == bytes(p)[68:70]
 //@   ensures bytes(ffif.Name) == bytes(p)[72:nameEnd]
 //@   ensures len(p) > nameEnd ==> bytes(ffif.Comment) == bytes(p)[nameEnd+2:nameEnd+2+u16(bytes(p),nameEnd)] && u16(bytes(ffif.CommentSize)) == len(ffif.Comment)
+//@   ensures len(p) <= nameEnd ==> same(ffif.Comment, old(ffif.Comment)) && ffif.CommentSize[0] == old(ffif.CommentSize[0]) && ffif.CommentSize[1] == old(ffif.CommentSize[1])
+//@   modifies *ffif
 //@   nopanic
 
 // Flattened file header "FILP" 4, version 2 (=1), RSVD 16, fork count 2; fork header: fork
@@ -657,15 +662,42 @@ package hotline
 //@   ensures err == nil ==> wcalls(w) == old(nhdr) + 2 + ite(old(fileTransfer.FileResumeData) == nil, 1, 0)
 //@   ensures err != nil ==> ghost(envfail) != 0 || ghost(shortskip) != 0
 
-// (assumed for the transfer properties; NewFileWrapper's body reads the stored side files)
+// Proved from the body (fresh wrapper, fresh header object with its cursor at 0, header invariant
+// from flattenedFileObject's contract).  Taken on trust: the last element of the addressed path
+// fits the 16-bit name size field (names arrive in fields of at most 65535 bytes; file systems
+// allow 255).
 //@ func NewFileWrapper(fs FileStore, path string, dataOffset int64) (r *fileWrapper, err error)
 //@   property C01 C08 C10 C11
+//@   after call path/filepath.Base assume len(res0) <= 65535
 //@   ensures (err == nil) == (r != nil)
 //@   ensures err == nil ==> r.Ffo != nil && r.Ffo.readOffset == 0 && inv_FFO(r.Ffo) && r.dataOffset == dataOffset && fresh(r) && fresh(r.Ffo) && disjoint(r, r.Ffo)
 //@   modifies nothing
 
 // The announced sizes: data size = size on disk - resume offset (both Stat branches), transfer
 // size = header + data + resource - offset.
+
+// The header object a transfer serialises is built here: fixed "FILP" / version / "DATA" parts,
+// the information fork either parsed from the stored .info_<name> side file or synthesised from
+// the file's own name, and the cursor left where it was.  The one thing taken on trust is the
+// content of the side file on disk (written earlier by the server through the same codec).
+//@ define wf_infofork(b) := len(b) >= 72 && len(b) <= 65535 && len(b) >= 72 + u16(bytes(b),70) && (len(b) > 72 + u16(bytes(b),70) ==> len(b) >= 74 + u16(bytes(b),70) && len(b) >= 74 + u16(bytes(b),70) + u16(bytes(b), 72 + u16(bytes(b),70)))
+
+//@ func (f *fileWrapper) flattenedFileObject() (r *flattenedFileObject, err error)
+//@   property C01 C08 C10 C11
+//@   requires f != nil && f.Ffo != nil && len(f.Name) <= 65535 && inv_InfoFork(f.Ffo.FlatFileInformationFork)
+//@   after call (hotline.FileStore).ReadFile assume res1 == nil ==> wf_infofork(res0) && fresh(res0)
+//@   ensures err == nil ==> r == old(f.Ffo) && r.readOffset == old(f.Ffo.readOffset)
+//@   ensures err == nil ==> bytes(r.FlatFileHeader.Format) == "FILP" && bytes(r.FlatFileHeader.Version) == seq(0,1) && bytes(r.FlatFileHeader.RSVD) == zeros(16)
+//@   ensures err == nil ==> bytes(r.FlatFileDataForkHeader.ForkType) == "DATA"
+//@   ensures err == nil ==> len(r.FlatFileInformationFork.Name) <= 65535
+//@   ensures err == nil ==> len(r.FlatFileInformationFork.Comment) <= 65535
+//@   ensures err == nil ==> u16(bytes(r.FlatFileInformationFork.CommentSize)) == len(r.FlatFileInformationFork.Comment)
+//@   modifies *f.Ffo
+
+//@ func NewTime(t time.Time) (b Time)
+//@   modifies nothing
+//@ func fileTypeFromInfo(info fs.FileInfo) (ft fileType, err error)
+//@   modifies nothing
 
 //@ func (f *fileWrapper) flattenedFileObject() (r *flattenedFileObject, err error)
 //@   property C08
